@@ -492,6 +492,44 @@ Proof.
 Qed.
 Print Assumptions C08_tparams_reencode_nonvacuous.
 
+(** Round 3 — the exact error of a NON-first offending parameter.  If the loop of unmarshal accepts
+    the parameters in front ([tp_run ... = Ok _], input made of bytes) and the switch rejects the next
+    parameter with class c / auxiliary value a, the whole input fails with exactly [Err c a], whatever
+    follows: the first offending parameter decides. *)
+From V Require Import Wire.TParamsPrefix.
+
+Theorem C08_tparams_first_error : forall pers ticket ps s1 id body rest c a,
+  params_wf ps -> Forall is_byte (enc_params ps) ->
+  tp_run pers st_init (enc_params ps) = Ok s1 ->
+  vwf id -> vwf (zlen body) ->
+  (forall s, tp_step pers id (zlen body) (body ++ rest) s = Err c a) ->
+  unmarshal pers ticket (enc_params ps ++ enc_param id body ++ rest) = Err c a.
+Proof. exact unmarshal_first_error. Qed.
+Print Assumptions C08_tparams_first_error.
+
+(** instantiated for the six range rules: exact class at any position *)
+Theorem C08_reject_range_exact_class : forall pers ticket ps s1 body v rest,
+  params_wf ps -> Forall is_byte (enc_params ps) -> tp_run pers st_init (enc_params ps) = Ok s1 ->
+  varint_body body v ->
+  (TP_MaxAckDelayExponent < v -> unmarshal pers ticket (enc_params ps ++ enc_param TP_ID_ade body ++ rest) = Err E_TP_ADE 0) /\
+  (TP_MaxMaxAckDelayMs < v -> unmarshal pers ticket (enc_params ps ++ enc_param TP_ID_mad body ++ rest) = Err E_TP_MAD 0) /\
+  (v < 1200 -> unmarshal pers ticket (enc_params ps ++ enc_param TP_ID_mups body ++ rest) = Err E_TP_MUPS 0) /\
+  (v < 2 -> unmarshal pers ticket (enc_params ps ++ enc_param TP_ID_acil body ++ rest) = Err E_TP_ACIL 0) /\
+  (TP_MaxStreamCount < v -> unmarshal pers ticket (enc_params ps ++ enc_param TP_ID_mbs body ++ rest) = Err E_TP_STREAMS_BIDI 0) /\
+  (TP_MaxStreamCount < v -> unmarshal pers ticket (enc_params ps ++ enc_param TP_ID_mus body ++ rest) = Err E_TP_STREAMS_UNI 0).
+Proof. exact reject_range_exact. Qed.
+Print Assumptions C08_reject_range_exact_class.
+
+Example C08_tparams_first_error_nonvacuous :
+  params_wf ex_ps_server /\ Forall is_byte (enc_params ex_ps_server) /\
+  (exists s1, tp_run Server st_init (enc_params ex_ps_server) = Ok s1) /\
+  unmarshal Server false (enc_params ex_ps_server ++ enc_param TP_ID_ade (vappend 21) ++ [1; 2; 3]) = Err E_TP_ADE 0.
+Proof.
+  split; [exact ex_ps_server_wf|]. split; [vm_compute; repeat constructor; discriminate|].
+  split; [eexists; vm_compute; reflexivity | vm_compute; reflexivity].
+Qed.
+Print Assumptions C08_tparams_first_error_nonvacuous.
+
 (* ==== end tparams ==== *)
 (* ==== headers ==== *)
 (** Packet headers (coq/Wire/Headers.v mirrors internal/wire/header.go, extended_header.go,
@@ -680,4 +718,166 @@ Example C08_vneg_nonvacuous :
   parse_connection_id [192; 0; 0; 0; 1; 21] 0 = (E_CIDLen, []).
 Proof. vm_compute. split; reflexivity. Qed.
 Print Assumptions C08_vneg_nonvacuous.
+(** Round 3 — the routing helpers of header.go (used on datagrams before a connection exists). *)
+From V Require Import Wire.HeadersHelpersProofs.
+
+(** ParseArbitraryLenConnectionIDs: on success the reported length is exactly the invariant header
+    1 + 4 + 1 + dcil + 1 + scil, within the input, connection IDs of at most 255 bytes. *)
+Theorem C08_arbitrary_cids_consumed : forall data n dst src,
+  Forall is_byte data -> parse_arbitrary data = (0, n, dst, src) ->
+  n = 7 + zlen dst + zlen src /\ n <= zlen data /\ zlen dst <= 255 /\ zlen src <= 255.
+Proof. exact arbitrary_consumed. Qed.
+Print Assumptions C08_arbitrary_cids_consumed.
+
+(** ... and whenever the full long-header parser gets past the connection IDs (accepts, or reports
+    an unsupported version) it returns the same two connection IDs, read from a prefix of what
+    parseHeader read. *)
+Theorem C08_arbitrary_cids_agree : forall b h e,
+  Forall is_byte b -> parse_header b = Some (h, e) -> accepted e ->
+  exists n, parse_arbitrary b = (0, n, hDst h, hSrc h) /\ n <= hParsedLen h.
+Proof. exact arbitrary_agrees. Qed.
+Print Assumptions C08_arbitrary_cids_agree.
+
+(** ParseVersion, IsVersionNegotiationPacket and Is0RTTPacket depend on the first five bytes only;
+    on shorter inputs they answer EOF / false / false. *)
+Theorem C08_header_helpers_prefix_only : forall b rest, 5 <= zlen b ->
+  parse_version (b ++ rest) = parse_version b /\ is_vneg (b ++ rest) = is_vneg b /\ is_0rtt (b ++ rest) = is_0rtt b.
+Proof. exact prefix_only. Qed.
+Print Assumptions C08_header_helpers_prefix_only.
+
+Theorem C08_header_helpers_short_input : forall b, zlen b < 5 ->
+  parse_version b = (E_EOF, 0) /\ is_vneg b = false /\ is_0rtt b = false.
+Proof. exact short_input. Qed.
+Print Assumptions C08_header_helpers_short_input.
+
+(** they agree with the long-header parser: same version, and "Version Negotiation" = long header with version 0 *)
+Theorem C08_version_agrees : forall b h e, parse_header b = Some (h, e) -> 6 <= zlen b ->
+  parse_version b = (0, hVersion h) /\ is_vneg b = is_long (hTypeByte h) && (hVersion h =? 0).
+Proof. exact version_agrees. Qed.
+Print Assumptions C08_version_agrees.
+
+Theorem C08_vneg_header : forall b h, parse_header b = Some (h, 0) -> 6 <= zlen b -> is_long (hd 0 b) = true ->
+  (is_vneg b = true <-> hVersion h = 0).
+Proof. exact vneg_header. Qed.
+Print Assumptions C08_vneg_header.
+
+(** ParseVersionNegotiationPacket consumes the whole packet: a non-empty list of 4-byte versions follows the header. *)
+Theorem C08_vneg_consumed : forall b dst src vs,
+  Forall is_byte b -> parse_vneg b = (0, dst, src, vs) ->
+  vs <> [] /\ zlen b = 7 + zlen dst + zlen src + 4 * zlen vs.
+Proof. exact vneg_consumed. Qed.
+Print Assumptions C08_vneg_consumed.
+
+Example C08_header_helpers_nonvacuous :
+  let b := [192; 0; 0; 0; 1; 2; 10; 11; 1; 12; 0; 5; 1; 2; 3; 4; 5] in
+  Forall is_byte b /\ (exists h, parse_header b = Some (h, 0) /\ hVersion h = 1) /\
+  parse_arbitrary b = (0, 10, [10; 11], [12]) /\ parse_version b = (0, 1) /\ is_vneg b = false /\
+  parse_vneg [200; 0; 0; 0; 0; 1; 7; 0; 0; 0; 0; 1] = (0, [7], [], [1]).
+Proof.
+  cbv zeta. split; [repeat constructor; unfold is_byte; lia|].
+  split; [eexists; split; vm_compute; reflexivity|]. repeat split; vm_compute; reflexivity.
+Qed.
+Print Assumptions C08_header_helpers_nonvacuous.
+
 (* ==== end headers ==== *)
+
+(* ==== tickets and tokens (round 3) ==== *)
+(** Session tickets (internal/handshake/session_ticket.go, model Wire/Tickets.v; this fork's ticket is
+    the revision varint followed by the transport parameters in their ticket form, no RTT field) and
+    the framing of address-validation tokens (model AmpToken/TokenModel.v of C14, whose `token` unit
+    ties it to the code; the AEAD and encoding/asn1 are parameters). *)
+From V Require Import Wire.Tickets Wire.TicketsProofs AmpToken.TokenModel AmpToken.TokenProofs.
+
+Theorem C08_ticket_roundtrip : forall p,
+  tp_wf_ticket p -> ticket_unmarshal (ticket_marshal p) = Ok (tp_norm_ticket p).
+Proof. exact ticket_codec_roundtrip. Qed.
+Print Assumptions C08_ticket_roundtrip.
+
+(** rejections: nothing to read; any revision but the current one (the error carries it); a foreign
+    parameter-marshaling version; a stray byte behind a valid ticket *)
+Theorem C08_ticket_reject_empty : ticket_unmarshal [] = Err E_TK_READ 0.
+Proof. exact ticket_reject_empty. Qed.
+Print Assumptions C08_ticket_reject_empty.
+
+Theorem C08_ticket_reject_revision : forall rev rest,
+  vwf rev -> rev <> TK_Revision -> ticket_unmarshal (vappend rev ++ rest) = Err E_TK_REVISION rev.
+Proof. exact ticket_reject_revision. Qed.
+Print Assumptions C08_ticket_reject_revision.
+
+Theorem C08_ticket_reject_param_version : forall v rest,
+  vwf v -> v <> TP_MarshalVersion ->
+  ticket_unmarshal (vappend TK_Revision ++ vappend v ++ rest) = Err E_TK_PARAMS 0.
+Proof. exact ticket_reject_param_version. Qed.
+Print Assumptions C08_ticket_reject_param_version.
+
+Theorem C08_ticket_reject_trailing_byte : forall p x,
+  tp_wf_ticket p -> is_byte x -> ticket_unmarshal (ticket_marshal p ++ [x]) = Err E_TK_PARAMS 0.
+Proof. exact ticket_reject_trailing_byte. Qed.
+Print Assumptions C08_ticket_reject_trailing_byte.
+
+Example C08_ticket_nonvacuous :
+  tp_wf_ticket ex_tp /\ TK_Revision = 5 /\
+  ticket_unmarshal (ticket_marshal ex_tp) = Ok (tp_norm_ticket ex_tp) /\
+  ticket_unmarshal (ticket_marshal ex_tp ++ [0]) = Err E_TK_PARAMS 0 /\
+  ticket_unmarshal (4 :: tl (ticket_marshal ex_tp)) = Err E_TK_REVISION 4.
+Proof.
+  split; [exact ex_tp_wf_ticket|]. repeat split; vm_compute; reflexivity.
+Qed.
+Print Assumptions C08_ticket_nonvacuous.
+
+(** Tokens: an issued token decodes to what was sealed (C14's lemma, restated for the codec claim) ... *)
+Theorem C08_token_roundtrip :
+  forall (K : Type) (prot_seal : K -> list Z -> list Z -> list Z)
+         (prot_open : K -> list Z -> list Z -> option (list Z))
+         (marshal : rec -> list Z) (unmarshal : list Z -> option (rec * list Z))
+         (sealed : K -> list Z -> list Z -> Prop),
+  oracles_correct prot_seal prot_open marshal unmarshal sealed ->
+  forall k enc r, issued K prot_seal marshal sealed k enc r ->
+  decode K prot_open unmarshal k enc = DTok (tok_of_rec r).
+Proof. exact decode_issued. Qed.
+Print Assumptions C08_token_roundtrip.
+
+(** ... and whatever is too short for the nonce, cannot be opened, or carries bytes behind the
+    ASN.1 record is an error (never a token, never "no token"); only the empty string is "no token". *)
+Theorem C08_token_reject_short : forall K prot_open unmarshal (k : K) enc,
+  0 < zlen enc < tokenNonceSize -> decode K prot_open unmarshal k enc = DErr.
+Proof. exact decode_short. Qed.
+Print Assumptions C08_token_reject_short.
+
+Theorem C08_token_reject_unopenable : forall K prot_open unmarshal (k : K) enc,
+  enc <> [] -> (tokenNonceSize <= zlen enc -> prot_open k (firstn nonceLen enc) (skipn nonceLen enc) = None) ->
+  decode K prot_open unmarshal k enc = DErr.
+Proof. exact token_reject_unopenable. Qed.
+Print Assumptions C08_token_reject_unopenable.
+
+Theorem C08_token_reject_trailing : forall K prot_open unmarshal (k : K) enc data r rest,
+  tokenNonceSize <= zlen enc ->
+  prot_open k (firstn nonceLen enc) (skipn nonceLen enc) = Some data ->
+  unmarshal data = Some (r, rest) -> rest <> [] ->
+  decode K prot_open unmarshal k enc = DErr.
+Proof. exact token_reject_trailing. Qed.
+Print Assumptions C08_token_reject_trailing.
+
+Theorem C08_token_nil_iff : forall K prot_open unmarshal (k : K) enc,
+  decode K prot_open unmarshal k enc = DNil <-> enc = [].
+Proof. exact decode_nil_iff. Qed.
+Print Assumptions C08_token_nil_iff.
+
+(** Round 3 — "total".  Every model parser is a Gallina function, so it is defined on every byte
+    string; the content of the totality claim on the model side is that the fuel of its loops always
+    suffices: the frame parser never answers with the artificial class 98 and the transport-parameter
+    parser never with E_TP_FUEL (and `shrink_for_length_field` never with -1, see the C08_maxdatalen theorems).
+    That the Go code does not panic where the model answers is observed (recover() in every harness
+    call; exhaustively for all 1- and 2-byte payloads through implementation and model and all 3-byte
+    payloads through the implementation, at all four levels, in the thorough tier), not proved. *)
+From V Require Import Wire.TotalProofs.
+
+Theorem C08_frame_parser_never_out_of_fuel : forall c lvl b e n, parse_next c lvl b = Err e n -> e <> 98.
+Proof. exact parse_next_no_fuel. Qed.
+Print Assumptions C08_frame_parser_never_out_of_fuel.
+
+Theorem C08_tparams_never_out_of_fuel : forall pers ticket b c a, unmarshal pers ticket b = Err c a -> c <> E_TP_FUEL.
+Proof. exact unmarshal_no_fuel. Qed.
+Print Assumptions C08_tparams_never_out_of_fuel.
+
+(* ==== end tickets and tokens ==== *)
